@@ -289,7 +289,7 @@ impl Font {
                     let c1 = p.as_usize()?;
                     match iter.next() {
                         Some(Primitive::Array(array)) => {
-                            widths.ensure_cid(c1 + array.len() - 1);
+                            widths.ensure_cid((c1 + array.len()).saturating_sub(1));
                             for (i, w) in array.iter().enumerate() {
                                 widths.set(c1 + i, w.as_number()?);
                             }
@@ -297,7 +297,7 @@ impl Font {
                         Some(&Primitive::Reference(r)) => {
                             match resolve.resolve(r)? {
                                 Primitive::Array(array) => {
-                                    widths.ensure_cid(c1 + array.len() - 1);
+                                    widths.ensure_cid((c1 + array.len()).saturating_sub(1));
                                     for (i, w) in array.iter().enumerate() {
                                         widths.set(c1 + i, w.as_number()?);
                                     }
